@@ -306,3 +306,140 @@ def check_medium_property(ctx, rule: str) -> None:
         ctx.bad(rule, setter, "medium assignment", "; ".join(problems[:2]))
     else:
         ctx.ok(rule, setter, "medium assignment", f"{len(MED)} exchange classes: listed exchanges get the given import bound (explicit zeros included), the others have their import closed, export bounds untouched, get(set(m)) = positive entries of m")
+
+
+# ---------------------------------------------------------------------------------------- boundary types
+class _BRxn:
+    """Stand-in reaction for the boundary classification: exactly the attributes is_boundary_type reads."""
+
+    def __init__(self, rid, annotation, compartments, reversibility, boundary):
+        self.id, self.annotation, self.compartments, self.reversibility, self.boundary = rid, annotation, compartments, reversibility, boundary
+
+
+class _QList(list):
+    def query(self, f):
+        if not callable(f):
+            raise Unsupported("query by pattern")
+        return _QList(r for r in self if f(r))
+
+    query._takes_callbacks = True  # type: ignore[attr-defined]
+
+
+class _BModel:
+    def __init__(self, rxns, compartments):
+        self.reactions = _QList(rxns)
+        self.boundary = [r for r in rxns if r.boundary]
+        self.compartments = compartments
+
+
+NATIVE = NATIVE + (_BRxn, _BModel, _QList)
+KINDS = ("exchange", "demand", "sink")
+
+
+def _want_kind(kind, sbo, tables, r, ext):
+    """The documented classification: the annotation dominates; otherwise a boundary reaction whose identifier does not
+    carry a marker of another kind, inside (exchange) / outside (demand, sink) the external compartment, irreversible
+    (demand) / reversible (sink)."""
+    sbo_terms, excludes = tables
+    term = sbo[0] if isinstance(sbo, list) else sbo
+    term = term.upper()
+    if term == sbo_terms[kind]:
+        return True
+    if term in [sbo_terms[k] for k in sbo_terms if k != kind]:
+        return False
+    inside = ext in r.compartments
+    if kind != "exchange":
+        inside = not inside
+    rev_ok = True if kind == "exchange" else ((not r.reversibility) if kind == "demand" else r.reversibility)
+    return bool(r.boundary and not any(x in r.id for x in excludes[kind]) and inside and rev_ok)
+
+
+def check_boundary_types(ctx, rule: str) -> None:
+    """is_boundary_type / find_boundary_types over the finite case table the function distinguishes."""
+    prog = ctx.prog
+    isb = prog.func("cobra.medium.boundary_types", "is_boundary_type")
+    fbt = prog.func("cobra.medium.boundary_types", "find_boundary_types")
+    it = Interp(prog, NATIVE, ["cobra.medium.boundary_types.is_boundary_type", "cobra.medium.boundary_types.find_boundary_types"],
+                {"cobra.medium.boundary_types.find_external_compartment": lambda it_, ev, c, a, k: "e"}, globals_={})
+    ann = prog.units.get("cobra.medium.annotations")
+    if ann is None:
+        raise AnalysisError("C18: module cobra.medium.annotations not found")
+    sbo_terms = it._global_value(ann, "sbo_terms")
+    excludes = it._global_value(ann, "excludes")
+    if not isinstance(sbo_terms, dict) or not isinstance(excludes, dict) or not all(k in sbo_terms and k in excludes for k in KINDS):
+        raise AnalysisError("C18: the tables sbo_terms / excludes of cobra.medium.annotations cannot be evaluated or lack one of exchange/demand/sink")
+    terms = {k: sbo_terms[k] for k in KINDS}
+    bad_tables = []
+    if len(set(terms.values())) != 3:
+        bad_tables.append(f"the SBO terms of the three boundary kinds are not distinct: {terms}")
+    # --- case table -------------------------------------------------------------------------------------------
+    sbos: List[Any] = ["", "SBO:0000176"]           # none, an unrelated term
+    for k in KINDS:
+        sbos += [terms[k], terms[k].lower(), [terms[k], "SBO:0000176"]]
+    sbos.append(sbo_terms.get("biomass", "SBO:0000629"))
+    ids = ["R1"]
+    for k in KINDS:
+        ids += [f"{x}r" if x.endswith("_") else f"r_{x}_1" for x in excludes[k][:3]]
+    ids = list(dict.fromkeys(ids))
+    n = 0
+    problems: List[str] = []
+    exclusive_bad: Optional[str] = None
+    for sbo in sbos:
+        for rid in ids:
+            for comps in ({"e"}, {"c"}):
+                for rev in (False, True):
+                    for boundary in (True, False):
+                        annotation = {} if sbo == "" else {"sbo": sbo}
+                        got = {}
+                        for kind in KINDS:
+                            r = _BRxn(rid, dict(annotation), set(comps), rev, boundary)
+                            what = f"is_boundary_type(id {rid!r}, sbo {sbo!r}, compartments {sorted(comps)}, reversible {rev}, boundary {boundary}; {kind!r}, external 'e')"
+                            try:
+                                out = _run(what, lambda: it.call(isb, [r, kind, "e"], {}))
+                            except EvalRaise as exc:
+                                problems.append(f"{what} raises {exc.exc_type}")
+                                continue
+                            n += 1
+                            got[kind] = bool(out)
+                            want = _want_kind(kind, sbo, (sbo_terms, excludes), r, "e")
+                            if bool(out) != want and len(problems) < 4:
+                                problems.append(f"{what} is {bool(out)}, expected {want}")
+                        if sum(got.values()) > 1 and exclusive_bad is None and not problems:
+                            exclusive_bad = f"a reaction (id {rid!r}, sbo {sbo!r}, compartments {sorted(comps)}, reversible {rev}) is classified as {[k for k, v in got.items() if v]} at once: assigning a medium would close a demand/sink, or leave an exchange open"
+    if bad_tables:
+        ctx.bad(rule, isb, "boundary kind tables", "; ".join(bad_tables))
+    if problems:
+        ctx.bad(rule, isb, "boundary classification", "; ".join(problems[:2]))
+    elif exclusive_bad:
+        ctx.bad(rule, isb, "boundary classification", exclusive_bad)
+    else:
+        ctx.ok(rule, isb, "boundary classification", f"{n} cases (annotation none/unrelated/each kind in upper, lower and list form, identifier markers of each kind, inside/outside the external compartment, reversible or not, boundary or not): the annotation dominates, otherwise the documented heuristic; no reaction belongs to two kinds")
+    # --- find_boundary_types: exactly the model's reactions of that kind, in model order; external compartment looked up
+    # only when it is not given; no boundary reactions -> empty
+    rx = [_BRxn("EX_a", {}, {"e"}, True, True), _BRxn("INT", {}, {"c", "e"}, True, False), _BRxn("DM_b", {}, {"c"}, False, True),
+          _BRxn("SK_c", {}, {"c"}, True, True), _BRxn("weird", {"sbo": terms["exchange"]}, {"c"}, False, True), _BRxn("EX_d", {"sbo": terms["sink"]}, {"e"}, True, True)]
+    model = _BModel(rx, {"e": "", "c": ""})
+    want = {"exchange": ["EX_a", "weird"], "demand": ["DM_b"], "sink": ["SK_c", "EX_d"]}
+    fproblems = []
+    for kind in KINDS:
+        for ext in (None, "e"):
+            what = f"find_boundary_types(model, {kind!r}, external_compartment={ext!r})"
+            try:
+                out = _run(what, lambda: it.call(fbt, [model, kind], {} if ext is None else {"external_compartment": ext}))
+            except EvalRaise as exc:
+                fproblems.append(f"{what} raises {exc.exc_type}")
+                continue
+            got_ids = [r.id for r in out]
+            if got_ids != want[kind]:
+                fproblems.append(f"{what} returns {got_ids}, expected {want[kind]}")
+    empty = _BModel([_BRxn("INT", {}, {"c"}, True, False)], {"c": ""})
+    try:
+        out = _run("find_boundary_types on a model without boundary reactions", lambda: it.call(fbt, [empty, "exchange"], {}))
+        if list(out) != []:
+            fproblems.append(f"a model without boundary reactions has exchanges {[r.id for r in out]}")
+    except EvalRaise as exc:
+        fproblems.append(f"find_boundary_types on a model without boundary reactions raises {exc.exc_type}")
+    if fproblems:
+        ctx.bad(rule, fbt, "boundary lists", "; ".join(fproblems[:2]))
+    else:
+        ctx.ok(rule, fbt, "boundary lists", "3 kinds x external compartment given / looked up + a model without boundary reactions: exactly the reactions of that kind, in model order")
